@@ -267,9 +267,18 @@ func idents() {
 		r := map[string]any{"name": n}
 		r["snake"] = formatting.ToSnakeCase(n)
 		r["pascal"] = formatting.ToPascalCase(n)
+		r["upperSnake"] = formatting.ToUpperSnakeCase(n)
 		r["cppField"] = cppcommon.FieldIdentifierName(n)
 		r["pyField"] = pythoncommon.FieldIdentifierName(n)
 		r["matlabField"] = matlabcommon.FieldIdentifierName(n)
+		r["cppEnumValue"] = cppcommon.EnumValueIdentifierName(n)
+		r["pyEnumValue"] = pythoncommon.EnumValueIdentifierName(n)
+		r["matlabEnumValue"] = matlabcommon.EnumValueIdentifierName(n)
+		r["cppComputed"] = cppcommon.ComputedFieldIdentifierName(n)
+		r["pyComputed"] = pythoncommon.ComputedFieldIdentifierName(n)
+		r["cppType"] = cppcommon.TypeIdentifierName(n)
+		r["pyType"] = pythoncommon.TypeIdentifierName(n)
+		r["matlabType"] = matlabcommon.TypeIdentifierName(n)
 		enc.Encode(r)
 	}
 }
